@@ -13,6 +13,7 @@ Template directives (lines starting with `//@`):
       //@loopexit <n>                       (… inserted right after loop n)
       //@nested <fn name> <ret name>        (following plain lines: contract of a fn item nested in the body)
       //@deimpl                             (X11: impl-Trait arguments become named generic parameters)
+      //@closure <nth> `<closure text>` | <typed params> | <ret: Type>   (following lines: the closure's ensures; X10)
       //@entry                              (following plain lines: proof text inserted at the start of the body; no anchor)
   //@end
 Everything else is copied through (prelude, spec functions, lemmas, impl headers).
@@ -104,6 +105,7 @@ def expand(unit, repo=None):
                 elif cur[0] == 'loop': ann['loops'][cur[1]] = {'iter': cur[2], 'inv': text}
                 elif cur[0] in ('before', 'after'): ann[cur[0]].append((cur[1], cur[2], text))
                 elif cur[0] == 'entry': ann['entry'] = text
+                elif cur[0] == 'closure': ann.setdefault('closures', []).append((cur[1], cur[2], cur[3], cur[4], text))
                 elif cur[0] == 'nested': ann.setdefault('nested', []).append((cur[1], cur[2], text))
                 elif cur[0] in ('loopentry', 'loopexit'): ann.setdefault(cur[0], {})[cur[1]] = text
             i += 1
@@ -118,6 +120,10 @@ def expand(unit, repo=None):
                     if cmd == 'ret': ann['ret'] = arg
                     elif cmd == 'spec': cur = ('spec',)
                     elif cmd == 'entry': cur = ('entry',)
+                    elif cmd == 'closure':
+                        mm = re.match(r'(\d+)\s+`(.*)`\s*\|\s*(.*?)\s*\|\s*(.*?)\s*$', arg)
+                        if not mm: raise ExtractError('bad directive: ' + l)
+                        cur = ('closure', int(mm.group(1)), mm.group(2), mm.group(3), mm.group(4))
                     elif cmd == 'deimpl': ann['deimpl'] = True
                     elif cmd == 'nested': cur = ('nested', arg.split()[0], arg.split()[1])
                     elif cmd in ('loopentry', 'loopexit'): cur = (cmd, int(arg.split()[0]))
@@ -143,7 +149,7 @@ def expand(unit, repo=None):
             src_line = s.line_of(it.sig_start)
             # mark ghost vs code lines: lines that come from the annotation text are ghost
             ghost_texts = set()
-            for t in [ann.get('spec') or ''] + [v['inv'] for v in ann['loops'].values()] + [x[2] for x in ann['before'] + ann['after']] + [ann.get('entry') or ''] + [x[2] for x in ann.get('nested') or []] + list((ann.get('loopentry') or {}).values()) + list((ann.get('loopexit') or {}).values()):
+            for t in [ann.get('spec') or ''] + [v['inv'] for v in ann['loops'].values()] + [x[2] for x in ann['before'] + ann['after']] + [ann.get('entry') or ''] + [x[4] for x in ann.get('closures') or []] + [x[2] for x in ann.get('nested') or []] + list((ann.get('loopentry') or {}).values()) + list((ann.get('loopexit') or {}).values()):
                 for gl in t.split('\n'):
                     if gl.strip(): ghost_texts.add(gl.strip())
             for l in text.split('\n'):
